@@ -39,8 +39,14 @@ func (c09) RunCase(c *fw.Ctx, rng *fw.RNG, batch, i int) {
 	}
 	c.Count("type_systems", 1)
 	eng := newBindEngine(lib)
+	if rng.Chance(1, 3) {
+		eng = newShapedBindEngine(lib, ts, rng)
+		c.Count("type_systems_with_user_go_types", 1)
+	}
 	var cur string
-	c.SetCase(func() any { return map[string]any{"type_system": schemagen.Describe(ts), "current": cur} })
+	c.SetCase(func() any {
+		return map[string]any{"type_system": schemagen.Describe(ts), "engine": eng.Name(), "go_types": eng.goTypes(), "current": cur}
+	})
 	for _, t := range ts.Types {
 		if t.Name[0] != 'T' {
 			continue
